@@ -8,8 +8,16 @@ INNER_IN = TypeDef("InnerIn", "struct", "named", [Field("i32", "deep"), Field("S
 INNER_EN = TypeDef("InnerEn", "enum", variants=[Variant("A", "named", [Field("St", "s", ["#[ts(flatten)]"]), Field("i32", "n")]), Variant("B", "unit")],
                    attrs=['#[ts(tag = "k")]'], derives=TS_ONLY, vals=False)
 
+INNER_E2 = TypeDef("InnerE2", "struct", "named", [Field("Ei", "e", ["#[ts(flatten)]"]), Field("Ea", "f", ["#[ts(flatten)]"])], derives=TS_ONLY, vals=False)
+INNER_ES = TypeDef("InnerES", "struct", "named", [Field("En", "e", ["#[ts(flatten)]"]), Field("St", "s", ["#[ts(flatten)]"])], derives=TS_ONLY, vals=False)
+INNER_E1 = TypeDef("InnerE1", "struct", "named", [Field("Ei", "e", ["#[ts(flatten)]"])], derives=TS_ONLY, vals=False)
+OUTER_E2 = TypeDef("OuterE2", "struct", "named", [Field("InnerE2", "i", ["#[ts(flatten)]"])], derives=TS_ONLY, vals=False)
+
 # (type, object-like?, extra type definitions)
 MENU = [
+    ("Box<En>", True, []), ("std::rc::Rc<Ei>", True, []), ("Box<Gp<St>>", True, []), ("std::sync::Arc<Eu>", True, []),
+    ("InnerE2", True, [INNER_E2]), ("InnerES", True, [INNER_ES]), ("InnerE1", True, [INNER_E1]), ("OuterE2", True, [INNER_E2, OUTER_E2]),
+    ("Box<InnerE2>", True, [INNER_E2]),
     ("i32", False, []), ("String", False, []), ("Option<St>", False, []), ("Vec<St>", False, []), ("[St; 2]", False, []),
     ("BTreeMap<String, St>", False, []), ("HashMap<Ue, St>", False, []), ("Box<St>", True, []), ("Option<Vec<Option<St>>>", False, []),
     ("St", True, []), ("En", True, []), ("Ue", False, []), ("Nt", False, []), ("Tu", False, []), ("Un", False, []),
@@ -78,6 +86,20 @@ def build(tier):
             ]
             out.append(Case({"family": "presentation", "position": f"enum-payload-{rp}", "field_type": ty},
                             extra + [en("EN", []), en("EI", ["#[ts(inline)]"]), en("EA", [f'#[ts(as = "{ty}")]'], rename="EN")], body, decl_types=dts + ["EN"]))
+    # ---- optional x inline on the same Option field
+    for ty in ("St", "En", "Ei", "Gp<St>", "Vec<St>", "Box<St>", "i32"):
+        for mode, lbl in (("optional", "optional"), ("optional = nullable", "optional-nullable")):
+            pn = st("PN", [Field("bool", "keep"), Field(f"Option<{ty}>", "f", [f"#[ts({mode})]"])])
+            pi = st("PI", [Field("bool", "keep"), Field(f"Option<{ty}>", "f", [f"#[ts({mode}, inline)]"])])
+            of = "optional_fields" if mode == "optional" else "optional_fields = nullable"
+            sn = st("SN", [Field("bool", "keep"), Field(f"Option<{ty}>", "f")], attrs=[f"#[ts({of})]"])
+            si = st("SI", [Field("bool", "keep"), Field(f"Option<{ty}>", "f", ["#[ts(inline)]"])], attrs=[f"#[ts({of})]"])
+            body = [
+                'ctx.check_equiv("inline-presentation-denotes-a-different-type", &|| <PN as TS>::inline(), &|| <PI as TS>::inline());',
+                'ctx.check_equiv("inline-presentation-denotes-a-different-type", &|| <SN as TS>::inline(), &|| <SI as TS>::inline());',
+                'ctx.check_equiv("field-optional-differs-from-struct-optional_fields", &|| <PN as TS>::inline(), &|| <SN as TS>::inline());',
+            ]
+            out.append(Case({"family": "presentation-optional", "mode": lbl, "field_type": ty}, [pn, pi, sn, si], body, decl_types=["PN"]))
     # ---- `as = "U"` with U different from the field's type: exactly the binding of the item with type U
     class_no_ts = "pub struct NoTs(pub u8);"
     for f, u in (("i32", "String"), ("NoTs", "St"), ("Vec<NoTs>", "Vec<St>"), ("i32", "Option<_>"), ("St", "Gp<_>"), ("NoTs", "(i32, St)"), ("u8", "BTreeMap<String, Vec<_>>")):
